@@ -106,7 +106,7 @@ K_PTRACE = {
     "vk_read_strategy_selection": H("C", "MemReader::read (the first strategy that works is remembered; Unavailable is sticky; every success/failure combination of the strategies)"),
 }
 K_SUSPEND = {
-    "vk_suspend_thread_protocol": H("B", "PtraceDumper::suspend_thread", "attach succeeds / EPERM / ESRCH; at most 3 wait results (SIGSTOP / SIGUSR1 / SIGCHLD / exited / EINTR / error)"),
+    "vk_suspend_thread_protocol": H("B", "PtraceDumper::suspend_thread", "attach succeeds / EPERM / ESRCH; at most 3 wait results (SIGSTOP / stopped by ANY other signal 1..=31 / exited / EINTR / error)"),
     "vk_resume_threads_2": H("B", "PtraceDumper::resume_threads", "2 threads, called twice"),
     "vk_drop_resumes_and_continues": H("C", "Drop for PtraceDumper"),
     "vk_ptrace_detach_esrch_is_ok": H("C", "ptrace_detach (ESRCH)"),
